@@ -91,6 +91,14 @@ CHECKS['C08'] = ('exploration',
          'The oracle table (DESIGN.md appendix A) is a hand transcription of README / intro.rst / operator docstrings; cells the property leaves '
          'open are only recorded. One value letter per class and length.',
          'DESIGN.md 3/C08, appendix A')
+CHECKS['C09'] = ('exploration',
+         'exhaustive product class x operator x length pair (m,n) in {1..5}^2, differential against the single-valued operation',
+         'For the eight list-capable classes every operator the class defines among * / + - == != **, pose x point and every per-value accessor the '
+         'statement lists is applied to operands of every length pair in {1..5}^2 built from pairwise distinct values; element i of the result is '
+         'compared with the single-valued operation on the i-th elements, and unequal lengths > 1 must raise ValueError.',
+         'Differential oracle (library against library): a defect common to the single- and multi-valued paths is the business of C02/C05/C06. '
+         'Layout of array-valued results (rows or columns) is accepted either way.',
+         'DESIGN.md 3/C09')
 PENDING = {}
 
 def main():
